@@ -70,8 +70,14 @@ def _check_tables(cur, prev, a, b, pa, pb):
     stc = ScanTotals(dict(cur))
     stp = ScanTotals(dict(prev)) if prev is not None else None
     exp_order = [t.language for t in sorted(cur.values(), key=lambda t: Fig.val(t.loc), reverse=True)]
-    # ---- text
-    tbl = ScanResultTable(stc, stp)
+    # ---- text: through the real entry point format_text.print_report (S-ui recorder); the overview table is the ScanResultTable it prints
+    rep_c, rep_p = _report(dict(cur)), (_report(dict(prev)) if prev is not None else None)
+    tcon = RecConsole()
+    format_text.print_report(tcon, rep_c, rep_p)
+    tables = [x for objs, _ in tcon.items for x in objs if isinstance(x, ScanResultTable)]
+    if len(tables) != 1:
+        return False
+    tbl = tables[0]
     names = list(tbl.columns[0]._cells)
     ok = ok and sorted(names) == sorted(cur.keys())
     for i in range(len(names) - 1):
@@ -87,8 +93,10 @@ def _check_tables(cur, prev, a, b, pa, pb):
     ok = ok and tbl.show_footer == (len(cur) > 1)
     # ---- markdown
     con = RecConsole()
-    format_markdown.print_totals(con, _report(dict(cur)), _report(dict(prev)) if prev is not None else None)
-    rows, order = _md_rows(con.texts())
+    format_markdown.print_report(con, rep_c, rep_p)
+    texts = con.texts()
+    cut = texts.index("### Summary") if "### Summary" in texts else len(texts)
+    rows, order = _md_rows(texts[:cut])
     langs = [n for n in order if n != "**Totals**"]
     ok = ok and sorted(langs) == sorted(cur.keys())
     for i in range(len(langs) - 1):
@@ -146,7 +154,7 @@ def h_findings(n: int, full: bool, repo: bool) -> bool:
         if i < n:
             ms.append(Measurement(f"long{i}", Location(10 + i, 1), Location(90 + i, 2), 31 + ((i * 7) % 25) * 3 + (i % 3)))
         else:
-            ms.append(Measurement(f"short{i}", Location(10 + i, 1), Location(12 + i, 2), 1 + (i % 30)))
+            ms.append(Measurement(f"short{i}", Location(10 + i, 1), Location(12 + i, 2), 30 if i % 4 == 0 else 1 + (i % 30)))   # every fourth short one sits exactly ON the threshold
     cb = Codebase("/r")
     cb.add_file(SourceFileEntry("a.py", "k", "Python", 0, ms[:9]))
     cb.add_file(SourceFileEntry("d/b.py", "k", "Python", 0, ms[9:]))
@@ -257,3 +265,88 @@ def real_h_overview(a, b, pa, pb):
     fmts = sorted({p.split(":")[0] for p in problems})
     kinds = sorted({"annotation" if "annotation" in p else "value" for p in problems})
     return {"reproduced": bool(problems), "sig": f"overview:{SCEN}:{'+'.join(fmts)}:{'+'.join(kinds)}", "detail": "; ".join(problems[:4])}
+
+
+# ----------------------------------------------------------------------------- report_command / findings_command wiring over the in-memory FS
+import json as _json
+
+import codelimit.commands.findings as fcmd
+import codelimit.commands.report as rcmd
+import codelimit.utils as cutils
+from codelimit.common.report.ReportWriter import ReportWriter
+from vlib import fsstub
+from vlib.hx import untraced
+
+
+def _doc(vals, repo=False):
+    cb = Codebase("/w")
+    ms = [Measurement(f"fn{i}", Location(1 + i, 1), Location(50 + i, 2), v) for i, v in enumerate(vals)]
+    cb.add_file(SourceFileEntry("a.py", "k", "Python", sum(vals), ms[:2]))
+    cb.add_file(SourceFileEntry("d/b.java", "k2", "Java", sum(vals[2:]) if len(vals) > 2 else 0, ms[2:]))
+    cb.aggregate()
+    r = Report(cb, GithubRepository("o", "n", "b") if repo else None)
+    return ReportWriter(r).to_json(), r
+
+
+@untraced
+def _commands(fmt_md, has_diff, full, n_long):
+    vals_cur = [70 + i for i in range(n_long)] + [5, 9, 12]
+    vals_prev = [40, 8]
+    doc_c, rep_c = _doc(vals_cur)
+    doc_p, rep_p = _doc(vals_prev)
+    fs = fsstub.FakeFS({"/w/.codelimit_cache/codelimit.json": doc_c, "/old/report.json": doc_p}, cwd="/w")
+    FP = fsstub.make_path_class(fs)
+    con = RecConsole()
+    saved = (rcmd.Console, fcmd.Console)
+    rcmd.Console = fcmd.Console = lambda *a, **k: con
+    try:
+        fmt = rcmd.ReportFormat.markdown if fmt_md else rcmd.ReportFormat.text
+        rcmd.report_command(FP("/w"), fmt, FP("/old/report.json") if has_diff else None)
+        got_report = list(con.items)
+        con.items = []
+        fcmd.findings_command(FP("/w"), full, fmt)
+        got_findings = con.texts()
+    finally:
+        rcmd.Console, fcmd.Console = saved
+    # expected: the same printers called directly on the re-read reports
+    from codelimit.common.report.ReportReader import ReportReader
+    exp = RecConsole()
+    (format_markdown if fmt_md else format_text).print_report(exp, ReportReader.from_json(doc_c), ReportReader.from_json(doc_p) if has_diff else None)
+    def norm(items):
+        out = []
+        for objs, _ in items:
+            for o in objs:
+                if isinstance(o, ScanResultTable):
+                    out.append([list(c._cells) + [c.footer] for c in o.columns])
+                elif hasattr(o, "columns"):
+                    out.append([[x.plain if hasattr(x, "plain") else str(x) for x in c._cells] for c in o.columns])
+                else:
+                    out.append(o.plain if hasattr(o, "plain") else str(o))
+        return out
+    bad = []
+    if norm(got_report) != norm(exp.items):
+        bad.append("report_command-output-differs-from-print_report(current, previous)")
+    exp2 = RecConsole()
+    if fmt_md:
+        format_markdown.print_findings(ReportReader.from_json(doc_c), exp2, full)
+    else:
+        format_text.print_findings(exp2, ReportReader.from_json(doc_c), full)
+    if got_findings != exp2.texts():
+        bad.append("findings_command-output-differs-from-print_findings")
+    rows = [t for t in got_findings if "fn" in t]
+    if len(rows) != (n_long if full else min(n_long, 10)):
+        bad.append("findings-row-count")
+    return bad
+
+
+def h_commands(fmt_md: bool, has_diff: bool, full: bool, n_long: int) -> bool:
+    """
+    pre: 0 <= n_long <= 14
+    post: _
+    """
+    n = 0
+    for k in range(15):
+        if n_long == k:
+            n = k
+    bad = _commands(True if fmt_md else False, True if has_diff else False, True if full else False, n)
+    return fin(bad == [], n > 10 and not full)
